@@ -30,14 +30,16 @@ HistOpsFull  == HistOpsShort \cup
                  <<"issue_invoice_tx", "plain">>, <<"process_invoice_tx", "plain">>, <<"build_output", "plain">>,
                  <<"retrieve_summary_info", "refresh">>}
 
-VARIABLES w, u, init, hist, last
-vars == <<w, u, init, hist, last>>
+VARIABLES w, u, init, hist, last,
+          closed     \* history: close_wallet was called and open_wallet has not been since
+vars == <<w, u, init, hist, last, closed>>
 
 Init == /\ init \in Inits
         /\ w = NewWallet(init, TRUE)
         /\ u = NewWallet(init, FALSE)
         /\ hist = <<>>
         /\ last = [k |-> "init"]
+        /\ closed = FALSE
 
 \* a right-token call that changes the wallet extends the history
 HistCall ==
@@ -50,34 +52,36 @@ HistCall ==
        /\ w' = e.w /\ u' = t.w
        /\ hist' = Append(hist, [op |-> "call", m |-> mv[1], v |-> mv[2]])
        /\ last' = [k |-> "hist", m |-> mv[1], v |-> mv[2], tok |-> "right"]
-  /\ UNCHANGED init
+  /\ UNCHANGED <<init, closed>>
 Close ==
-  /\ UseClose /\ w.inst /\ Len(hist) < MaxHist
+  /\ UseClose /\ ~closed /\ Len(hist) < MaxHist
   /\ w' = CloseWallet(w) /\ u' = CloseWallet(u)
   /\ hist' = Append(hist, [op |-> "close"])
   /\ last' = [k |-> "close"]
+  /\ closed' = TRUE
   /\ UNCHANGED init
 Reopen ==
-  /\ UseClose /\ ~w.inst /\ Len(hist) < MaxHist /\ w.gen < MaxGen
+  /\ UseClose /\ closed /\ Len(hist) < MaxHist /\ w.gen < MaxGen
   /\ w' = OpenWallet(w, TRUE) /\ u' = OpenWallet(u, FALSE)
   /\ hist' = Append(hist, [op |-> "reopen"])
   /\ last' = [k |-> "reopen"]
+  /\ closed' = FALSE
   /\ UNCHANGED init
 Node ==
   /\ UseNode /\ Len(hist) < MaxHist
   /\ w' = [w EXCEPT !.node = ~@] /\ u' = [u EXCEPT !.node = ~@]
   /\ hist' = Append(hist, [op |-> "node", up |-> ~w.node])
   /\ last' = [k |-> "node"]
-  /\ UNCHANGED init
+  /\ UNCHANGED <<init, closed>>
 \* every call with every token in the current state (the wallet is put back afterwards:
 \* the harness restores a snapshot when the store changed)
 Case ==
   /\ \E mv \in MV, kind \in KindsFor(w) :
        last' = [k |-> "case", m |-> mv[1], v |-> mv[2], tok |-> kind]
-  /\ UNCHANGED <<w, u, init, hist>>
+  /\ UNCHANGED <<w, u, init, hist, closed>>
 Next == HistCall \/ Close \/ Reopen \/ Node \/ Case
 Spec == Init /\ [][Next]_vars
-View == <<w, u, init>>
+View == <<w, u, init, closed>>
 
 TypeOK == /\ w.inst \in BOOLEAN /\ w.masked /\ ~u.masked
           /\ w.gen \in 1..MaxGen /\ u.gen = 0
@@ -89,7 +93,7 @@ TypeOK == /\ w.inst \in BOOLEAN /\ w.masked /\ ~u.masked
 Proj(x) == [f |-> x.f, ver |-> x.ver, active |-> x.active, inst |-> x.inst]
 Inv_Twin == Proj(w) = Proj(u)
 \* the right token always opens the masked wallet; no other kind ever does
-Inv_Tokens == w.inst => \A k \in KindsFor(w) : (Keychain(w, Tok(w, k)) = "ok") <=> (k = "right")
+Inv_Tokens == ~closed => \A k \in KindsFor(w) : (Keychain(w, Tok(w, k)) = "ok") <=> (k = "right")
 
 IsCall == last'.k \in {"case", "hist"}
 M == last'.m
@@ -107,7 +111,7 @@ Holds(i) ==
     [] i = 2 -> MaskSound_InvalidMask(Cls, Wrong, O, RR)
     [] i = 3 -> MaskSound_StoreUnchanged(Wrong, O)
     [] i = 4 -> (K = "right") => MaskTransparent(O, TO)
-    [] i = 5 -> ClosedIsDead(Cls, ~w.inst, O)
+    [] i = 5 -> ClosedIsDead(Cls, closed, O)
 Failing == {i \in 1..5 : ~Holds(i)}
 Prop_Mask ==
   [][IsCall =>
@@ -121,12 +125,12 @@ TwinKind == IF K \in {"right", "random", "other"} THEN K ELSE "none"
 EmitCases ==
   [][(last'.k = "case") =>
        PrintT(<<"CASE", ToJson([init |-> init, hist |-> hist, m |-> M, v |-> V, tok |-> K, cls |-> Cls,
-                                closed |-> ~w.inst, node |-> w.node,
+                                closed |-> closed, node |-> w.node,
                                 pred |-> E.res, touch |-> E.touched,
                                 twin |-> IF TwinKind = "none" THEN "" ELSE Exec(u, M, V, Tok(u, TwinKind)).res])>>)]_vars
 
 \* vacuity witnesses: each must be REACHABLE (the runner checks them as violated "invariants")
-W_Closed    == w.inst                                   \* a closed wallet is reached
+W_Closed    == ~closed                                  \* a closed wallet is reached
 W_Reopened  == ~(w.inst /\ w.gen >= 2)                  \* ... and reopened with a new mask
 W_Locked    == ~(w.f.sent /\ w.f.free = 0)              \* every coin reserved
 W_Finalized == ~(w.f.fin /\ ~w.f.done)                  \* a send finalized by a history
